@@ -380,7 +380,7 @@ def run_query(b, q, mem_gb):
     return r
 
 
-NATIVE_FLAGS = ['-std=c++20', '-O1', '-g', '-fsanitize=address,undefined', '-fno-omit-frame-pointer', '-w']
+NATIVE_FLAGS = ['-std=c++20', '-O1', '-g', '-fsanitize=address,undefined,float-cast-overflow', '-fno-omit-frame-pointer', '-w']   # float-cast-overflow: part of UB_FLAGS, not of g++'s -fsanitize=undefined
 
 
 def dispatch_source(entries, path, pre=''):
